@@ -91,3 +91,13 @@ func VerifRollerSeed(r *Roller, seed PRNGSeed) error {
 	r.r = p
 	return nil
 }
+
+// VerifWriteRecord writes one record of the given content type under c's current write keys
+// (the bytes do not enter any transcript): lets a harness server speak out of turn after the
+// handshake, e.g. send a HelloRequest.
+func VerifWriteRecord(c *Conn, typ uint8, data []byte) error {
+	c.out.Lock()
+	defer c.out.Unlock()
+	_, err := c.writeRecordLocked(recordType(typ), data)
+	return err
+}
